@@ -208,6 +208,12 @@ def check_crate(fx, rep, crate, tag):
                                     ip = op_place(ia) if ia else None
                                     if ip and tdefs and derives_from(body, [ip['l']], tdefs):
                                         idx_ok = True
+                                elif ev[0] == 'assign':
+                                    # `slice[i]` on a plain slice is a projection, not a call (the buffer handed to a helper as `&[u8]`)
+                                    for q_ in mir.rv_places_read(ev[3]['rv']):
+                                        for e_ in (q_.get('p') or []):
+                                            if isinstance(e_, dict) and isinstance(e_.get('idx'), int) and tdefs and derives_from(body, [e_['idx']], tdefs):
+                                                idx_ok = True
                             if idx_ok:
                                 ok = True
                                 why = C.where(body, sw)
